@@ -674,6 +674,16 @@ func diffDir(got, want v1.ResourceList) string {
 	return strings.Join(parts, ",")
 }
 
+// firstDiff: the alphabetically first differing resource and its direction (keeps keys few and stable;
+// the message carries both full lists).
+func firstDiff(got, want v1.ResourceList) string {
+	d := diffDir(got, want)
+	if i := strings.Index(d, ","); i >= 0 {
+		return d[:i]
+	}
+	return d
+}
+
 // oracleA judges a fixpoint. hasFlip: the (shortest) history to it contains a preemptibility flip.
 func oracleA(f *fixA, hasFlip bool) []finding {
 	var out []finding
@@ -707,7 +717,7 @@ func oracleA(f *fixA, hasFlip bool) []finding {
 		case rlEqual(got, altWant):
 			key = "C20/podgroup-" + field + "-mismatch cause=allocated-gpu-share-ignores-gpu-fraction-num-devices"
 		default:
-			key = "C20/podgroup-" + field + "-mismatch cause=unexplained diff=" + diffDir(got, want) + " after=" + after
+			key = "C20/podgroup-" + field + "-mismatch cause=unexplained diff=" + firstDiff(got, want) + " after=" + after
 		}
 		out = append(out, finding{key, fmt.Sprintf("PodGroup status.resourcesStatus.%s = {%s} but the sum over its pods is {%s} (group currently %s; pods %v)",
 			field, rlCanon(got), rlCanon(want), map[bool]string{true: "preemptible", false: "non-preemptible"}[s.preemptible()], s.Pods)})
